@@ -19,8 +19,10 @@ class SchedAbort(BaseException):
 
 
 class Sched(object):
-    def __init__(self, ch, trace_files, horizon=20000):
+    def __init__(self, ch, trace_files, horizon=20000, state_fn=None, visible=None):
         self.ch = ch
+        self.state_fn = state_fn
+        self.visible = visible     # optional {(file, line)}: lines touching shared state; others are not scheduling points
         self.trace_files = set(trace_files)
         self.threads = []
         self.cur = None
@@ -34,7 +36,7 @@ class Sched(object):
 
     # ---- thread management
     def spawn(self, fn, name):
-        info = {'tid': len(self.threads), 'name': name, 'sem': threading.Semaphore(0), 'done': False,
+        info = {'tid': len(self.threads), 'name': name, 'frame': None, 'sem': threading.Semaphore(0), 'done': False,
                 'blocked': None, 'exc': None, 'result': None, 'started': False}
 
         def body():
@@ -77,6 +79,9 @@ class Sched(object):
             return None
         if event == 'line':
             me = self.cur
+            me['frame'] = frame
+            if self.visible is not None and (frame.f_code.co_filename, frame.f_lineno) not in self.visible:
+                return self.tracer
             self.log.append((me['tid'], frame.f_code.co_name, frame.f_lineno))
             self.switch(me, label=(frame.f_code.co_name, frame.f_lineno))
         return self.tracer
@@ -118,6 +123,8 @@ class Sched(object):
         else:
             still = False
         if len(en) > 1:
+            if self.state_fn is not None:
+                label = (label, self.state_fn(self, me))
             c = self.ch.choose(len(en), 1 if still else 0, (me['tid'], label))
         else:
             c = 0
